@@ -238,7 +238,8 @@ def enum_cases(rng, thorough):
         # (nosem, prologue, writer payload lengths, reader calls, pre-emption bound)
         (1, [], [4], ["r read 64 0"], 3),
         (0, [], [1], ["r read 64 0"], 3),
-        (1, ["pre w " + "a1" * 4084, "pre r read 8192"], [5, 0], ["r read 64 0", "r read 64 0"], 2),
+        (1, ["pre w " + "a1" * 4084, "pre r read 8192"], [1, 0], ["r read 64 0", "r read 64 0"], 3),
+        (1, ["pre w " + "a1" * 4080, "pre r read 8192"], [5, 0], ["r read 64 0", "r read 64 0"], 2),
         (0, ["pre w " + "a1" * 4080, "pre r read 8192"], [4], ["r peek 0", "r reclaim"], 2),
         # ring full up to the gap: A (4 words) at the head, B behind it; the write is refused until read_pt has moved
         (1, ["pre w " + (le32(8) + le32(MAGIC)).hex(), "pre w " + (le32(8) + le32(MAGIC)).hex() * 508], [8],
@@ -300,6 +301,9 @@ def monitor(case, lines):
         p = l.split()
         if p[0] == "note":
             return l
+        if l.startswith("c ro "):
+            return ("%s during the run: the handles' cached fields, word_size, ref_count and the path names must not be "
+                    "written after qb_rb_open (the one-state model of the two handles depends on it)" % l[5:])
         if p[0] == "open":
             if p[1] != "0":
                 return "qb_rb_open failed: " + l
